@@ -25,6 +25,20 @@ example : validW 4 [(0, 1, 1), (1, 2, 1), (3, 0, 1)] = true ∧
     reachB 4 [(0, 1, 1), (1, 2, 1), (3, 0, 1)] 0 2 = true ∧ reachB 4 [(0, 1, 1), (1, 2, 1), (3, 0, 1)] 0 3 = false := by
   decide
 
+/-- T-spec of the finiteness-pattern checker (used for inputs whose distances are inexact doubles):
+an accepted 0/1 matrix marks exactly the reachable pairs -/
+theorem checkSupport_sound {n : Nat} {es : List WEdge} {M : List (List Nat)} (h : checkSupport n es M = true) :
+    ∀ i j, i < n → j < n → ((M.getD i []).getD j 0 = 1 ↔ Reach es i j) := by
+  unfold checkSupport at h
+  simp only [Bool.and_eq_true, List.all_eq_true, List.mem_range, beq_iff_eq] at h
+  obtain ⟨⟨hv, _⟩, hall⟩ := h
+  intro i j hi hj
+  have := (hall i hi).2 j hj
+  rw [← reachB_decides hv]
+  cases hb : reachB n es i j <;> simp_all
+
+example : checkSupport 3 [(0, 1, 1), (1, 0, 1), (2, 0, 1)] [[1, 1, 0], [1, 1, 0], [1, 1, 1]] = true := by decide
+
 /-! ### Single-source distances (`dijkstra_edges`, `bellman_ford` without target) -/
 
 /-- T-spec: an accepted vector has length `n` and holds the exact shortest distance of every node
